@@ -604,6 +604,7 @@ func runRange(c *core.Ctx, g *model.GenPkg, m *model.Msg, fdVars map[types.Objec
 		for _, f := range o.Members {
 			armsS = append(armsS, "case *"+tq(f.Wrapper)+": if (%w == nil) {break}; if !$1("+varFor(f)+", "+wrapV(f.Desc.Kind(), "%w."+f.GoName)+") {return }")
 		}
+		sortArms(armsS)
 		want := "if (" + O + " != nil) {typeswitch %w := " + O + ".(type) {" + strings.Join(armsS, " | ") + "}}"
 		if _, ok := take([]string{want}); ok {
 			c.Ok("ACC.range", con, "the set member (and only it) is visited with its own descriptor", pos(c, g, fd.Pos()), src)
@@ -684,6 +685,7 @@ func runWhichOneof(c *core.Ctx, g *model.GenPkg, m *model.Msg, fdVars map[types.
 			}
 			as = append(as, "case *"+tq(f.Wrapper)+": if (%w == nil) {return nil}; return "+byName)
 		}
+		sortArms(as)
 		want := "if (" + O + " == nil) {return nil}; typeswitch %w := " + O + ".(type) {" + strings.Join(as, " | ") + "}"
 		c.Check(got == want && cn.err == "", "ACC.whichoneof", con, "nil when unset, else the descriptor of the member whose wrapper is held", fmt.Sprintf("arm does: %s ; expected: %s", clip(got, 400), clip(want, 400)), pos(c, g, cc.Pos()), src)
 	}
